@@ -17,7 +17,7 @@ func Deps(out io.Writer, state *core.BuildState, labels []core.BuildLabel, hidde
 		fmt.Fprintf(out, "  edge [fontname=\"Helvetica,Arial,sans-serif\"]\n")
 		fmt.Fprintf(out, "  rankdir=\"LR\"\n")
 	}
-	done := map[core.BuildLabel]bool{}
+	done := map[core.BuildLabel]int{}
 	for _, label := range labels {
 		deps(out, state, state.Graph.TargetOrDie(label), done, targetLevel, 0, hidden, formatdot)
 	}
@@ -27,31 +27,42 @@ func Deps(out io.Writer, state *core.BuildState, labels []core.BuildLabel, hidde
 }
 
 // deps looks at all the deps of the given target & recurses into them, printing as appropriate.
-func deps(out io.Writer, state *core.BuildState, target *core.BuildTarget, done map[core.BuildLabel]bool, targetLevel, currentLevel int, hidden, formatdot bool) {
+// done records the level at which each target's own dependencies were expanded.
+func deps(out io.Writer, state *core.BuildState, target *core.BuildTarget, done map[core.BuildLabel]int, targetLevel, currentLevel int, hidden, formatdot bool) {
 	if currentLevel == targetLevel {
 		return
 	}
 	for _, l := range target.DeclaredDependencies() {
 		dep := state.Graph.TargetOrDie(l)
 		for _, l := range dep.ProvideFor(target) {
-			if !state.ShouldInclude(dep) || done[l] {
+			if !state.ShouldInclude(dep) {
 				continue // target is filtered out
 			}
-			done[l] = true
-			if dep := state.Graph.TargetOrDie(l); hidden || !dep.HasParent() {
-				// dep is to be printed; either we're printing hidden deps or it has no parent (i.e. is not hidden)
+			dep := state.Graph.TargetOrDie(l)
+			// dep is to be printed if either we're printing hidden deps or it has no parent (i.e. is not hidden)
+			printed := hidden || !dep.HasParent()
+			nextLevel := currentLevel + 1
+			if !printed && dep.Label.Parent() == target.Label.Parent() {
+				// This is a hidden dependency of the current target, recurse without increasing depth
+				nextLevel = currentLevel
+			}
+			if level, seen := done[l]; seen {
+				if targetLevel < 0 || level <= nextLevel {
+					continue // already fully handled
+				}
+				// We got here before but via a longer path, so the level limit might have cut off
+				// things that are within it from here; look again but don't print this one twice.
+				printed = false
+			}
+			done[l] = nextLevel
+			if printed {
 				if formatdot {
 					printTargetDot(out, dep, target)
 				} else {
 					printTarget(out, dep, currentLevel)
 				}
-				deps(out, state, dep, done, targetLevel, currentLevel+1, hidden, formatdot)
-			} else if dep.Label.Parent() == target.Label.Parent() {
-				// This is a hidden dependency of the current target, recurse without increasing depth
-				deps(out, state, dep, done, targetLevel, currentLevel, hidden, formatdot)
-			} else {
-				deps(out, state, dep, done, targetLevel, currentLevel+1, hidden, formatdot)
 			}
+			deps(out, state, dep, done, targetLevel, nextLevel, hidden, formatdot)
 		}
 	}
 }
